@@ -428,7 +428,7 @@ pub(crate) mod b {
             }).collect();
             let ch = node.children();
             let ok = node.tag() == Some(&"text") && num(&node, "x") == Some(2.0) && num(&node, "y") == Some(12.0)
-                && node.attributes().map(|a| a.len()) == Some(2) && ch.len() == 1 && ch[0].as_text() == Some(want.as_str());
+                && ch.len() == 1 && ch[0].as_text() == Some(want.as_str());
             // the same through CellText
             let ct: Node<()> = CellText::new(Cell::new(0, 0), w.clone()).into();
             let ok2 = ct.children().len() == 1 && ct.children()[0].as_text() == Some(want.as_str());
